@@ -224,6 +224,13 @@ pub fn run(reg: &dyn Registry, ctx: &Ctx) -> Outcome {
         seeds.extend(chain);
         if kind == Kind::SplitMix64 {
             seeds.push(vec![0u8; 8]); // SplitMix64 has no zero-seed exception
+            // counters from which a special value is reached within a few steps (0 - j*PHI etc.)
+            seeds.extend(alphabet::u64_alphabet().into_iter().map(|x| x.to_le_bytes().to_vec()));
+        }
+        seeds.extend(documented_constant_seeds(*ty).into_iter().filter(|s| s.iter().any(|&b| b != 0)));
+        {
+            let mut seen = std::collections::HashSet::new();
+            seeds.retain(|s| seen.insert(s.clone()));
         }
         sample_seed(ctx, "lockstep", info.name, &seeds[seeds.len() / 2]);
         let steps = 2 * k + 2;
@@ -237,7 +244,7 @@ pub fn run(reg: &dyn Registry, ctx: &Ctx) -> Outcome {
         }
 
         // (e) long chains: every output of L steps from 8 dense base seeds
-        let l = if thorough { 1 << 20 } else { 4096 };
+        let l = if thorough { 1 << 27 } else { 1 << 16 };
         let bases: Vec<Vec<u8>> = (0..8).map(|b| alphabet::bg_bytes(ctx.seed, 0xBA5E00 + b + ((kind as u64) << 16), len)).collect();
         let res: Vec<Result<u64, (String, serde_json::Value)>> = bases.par_iter().map(|s| lockstep(*ty, kind, s, l)).collect();
         for r in res {
@@ -251,10 +258,11 @@ pub fn run(reg: &dyn Registry, ctx: &Ctx) -> Outcome {
         // carry-chain products on two-operand scramblers
         if let (a, Some(b)) = scrambler_operands(kind) {
             let cw = alphabet::carry_words(kind.word_bits());
-            let bgw = alphabet::bg_bytes(ctx.seed, 0xCA44 + kind as u64, len);
             let wb = kind.word_bits() / 8;
+            // twice: the other state words dense, and the other state words zero
+            for bgw in [alphabet::bg_bytes(ctx.seed, 0xCA44 + kind as u64, len), vec![0u8; len]] {
             // (0,0) on a two-word state is the all-zero seed, which is remapped: C08's business
-            let pairs: Vec<(u64, u64)> = cw.iter().flat_map(|&x| cw.iter().map(move |&y| (x, y))).filter(|&(x, y)| !(k == 2 && x == 0 && y == 0)).collect();
+            let pairs: Vec<(u64, u64)> = cw.iter().flat_map(|&x| cw.iter().map(move |&y| (x, y))).filter(|&(x, y)| !((k == 2 || bgw.iter().all(|&b| b == 0)) && x == 0 && y == 0)).collect();
             let res: Vec<Result<u64, (String, serde_json::Value)>> = pairs
                 .par_iter()
                 .map(|&(x, y)| {
@@ -270,6 +278,7 @@ pub fn run(reg: &dyn Registry, ctx: &Ctx) -> Outcome {
                     Ok(n) => ctx.add("steps_compared", n),
                     Err((what, replay)) => ctx.violation(&format!("C01:{}:carry", info.name), &format!("{}: {}", info.name, what), replay),
                 }
+            }
             }
         }
 
@@ -335,7 +344,7 @@ pub fn run(reg: &dyn Registry, ctx: &Ctx) -> Outcome {
                         ctx.add("conformance_mismatches", allbad);
                     }
                 }
-                Err(e) => ctx.violation(&format!("C01:{}:extract", info.name), &format!("{}: cannot extract the engine matrix: {}", info.name, e), json!({"kind":"note"})),
+                Err(e) => ctx.machinery(&format!("{}: cannot extract the engine matrix (undecided; the lock-step enumeration above still decides the enumerated states): {}", info.name, e)),
             }
         }
 
